@@ -220,7 +220,9 @@ inductive Val where
 deriving Repr, DecidableEq, Inhabited
 
 inductive Cls where
-  | structure
+  /-- `Structure` (or a subclass that does not override `read`) -/
+  | base
+  /-- `PDFFitStructure` (or a subclass) -/
   | pdffit
 deriving Repr, DecidableEq
 
@@ -272,7 +274,7 @@ def latIdOf : Option Val → Option Nat
 def setLattice (o : Obj) (v : Val) : Obj :=
   { o with dict := setKey o.dict "_lattice" v, atoms := o.atoms.map (fun a => { a with lat := latIdOf (some v) }) }
 
-def defaultLatticeValue : String := "Lattice()"
+def defaultLatticeValue : String := "Lattice(1,1,1,90,90,90)"
 
 /-- `Structure.__init__(self)` without arguments on an existing object: only a missing lattice is created -/
 def init0 (fresh : Nat) (o : Obj) : Obj :=
@@ -280,14 +282,15 @@ def init0 (fresh : Nat) (o : Obj) : Obj :=
   | some .none => setLattice o (.lat fresh defaultLatticeValue)
   | _ => o
 
+/-- the defaults of `PDFFitStructure.__init__`, values in the harness' canonical rendering (`%.10g` floats, `repr` strings) -/
 def defaultPdffit : List (String × String) :=
-  [("scale", "1.0"), ("delta1", "0.0"), ("delta2", "0.0"), ("sratio", "1.0"), ("rcut", "0.0"), ("spcgr", "\"P1\""),
-   ("spdiameter", "0.0"), ("stepcut", "0.0"), ("dcell", "[0.0, 0.0, 0.0, 0.0, 0.0, 0.0]"), ("ncell", "[1, 1, 1, 0]")]
+  [("scale", "1"), ("delta1", "0"), ("delta2", "0"), ("sratio", "1"), ("rcut", "0"), ("spcgr", "'P1'"),
+   ("spdiameter", "0"), ("stepcut", "0"), ("dcell", "[0, 0, 0, 0, 0, 0]"), ("ncell", "[1, 1, 1, 0]")]
 
 /-- the object as `T.__new__` + the part of `T.__init__` that precedes `self.read(...)` leave it -/
 def newObj (cls : Cls) : Obj :=
   match cls with
-  | .structure => ⟨cls, [], []⟩
+  | .base => ⟨cls, [], []⟩
   | .pdffit => ⟨cls, [("pdffit", .dict defaultPdffit)], []⟩
 
 /-- `T()` -/
@@ -578,13 +581,13 @@ def loadHandle (ws : List String) : Option String :=
     | some fn => some (hex (tailbase fn))
     | none => some "bad-op"
   | ["read.fresh", cls, fresh] =>
-    match (if cls = "S" then some Cls.structure else if cls = "P" then some Cls.pdffit else none), fresh.toNat? with
+    match (if cls = "S" then some Cls.base else if cls = "P" then some Cls.pdffit else none), fresh.toNat? with
     | some cls, some fresh =>
       let o := freshObj cls fresh
       some s!"ok {encDict o.dict} {encAtoms o.atoms} | {encObs (observe o)}"
     | _, _ => some "bad-op"
   | ["read.run", cls, fresh, fn, gp, tdict, tatoms, pk, ndict, natoms, sg] =>
-    match (if cls = "S" then some Cls.structure else if cls = "P" then some Cls.pdffit else none), fresh.toNat?, optHex fn,
+    match (if cls = "S" then some Cls.base else if cls = "P" then some Cls.pdffit else none), fresh.toNat?, optHex fn,
           decErr gp, decDict tdict, decAtoms tatoms, decDict ndict, decAtoms natoms, optHex sg with
     | some cls, some fresh, some fn, some gp, some tdict, some tatoms, some ndict, some natoms, some sg =>
       let parse : Option (Outcome Parsed) :=
